@@ -26,7 +26,7 @@ def model_says(val):
 
 def agree(kind, body, out, impl):
     """does the implementation's outcome equal the reference outcome?"""
-    if "panic" in impl:
+    if "panic" in impl or impl.get("result") == "ECrash":
         return False
     r = impl["result"]
     if kind == 0:
@@ -66,7 +66,21 @@ def run_programs(chk, programs, tag, minimal_parens=False, checks_flag=True):
     rc, out = C.sh([binp, cf], timeout=3600)
     os.remove(cf)
     impl = [json.loads(l) for l in out.splitlines() if l.startswith("{")]
-    if rc != 0 or len(impl) != len(srcs):
+    crashes = 0
+    while (rc != 0 or len(impl) < len(srcs)) and len(impl) < len(srcs) and crashes < 20:
+        # the harness process died (abort / stack overflow / kill) on case number len(impl): that program is
+        # the input; it gets the outcome ECrash (which no reference outcome agrees with) and the rest is run
+        crashes += 1
+        dead = len(impl)
+        chk.log(f"kh_run died (rc={rc}) on program {dead}:\n{srcs[dead]}")
+        impl.append({"result": "ECrash", "out": "", "msg": f"harness process died rc={rc}: {out[-300:]}"})
+        with open(cf, "w") as f:
+            for s in srcs[dead + 1:]:
+                f.write(json.dumps({"src": s, "checks": checks_flag, "limit_ms": 1500}) + "\n")
+        rc, out = C.sh([binp, cf], timeout=3600)
+        os.remove(cf)
+        impl += [json.loads(l) for l in out.splitlines() if l.startswith("{")]
+    if len(impl) != len(srcs):
         chk.log(f"kh_run failed rc={rc}: {out[-1500:]}")
         chk.violation("harness", {"kind": "obligation", "correspondence": "kh_run crashed", "log": out[-2000:]}, no_input=True)
         return None
